@@ -450,6 +450,10 @@ class Impl:
 WORDS = ["a.out", "./app", "echo hi", "hostname", "python run.py --n 4", "sleep 1", "lulesh -s 10",
          "mpi_hello > out.txt", "date", "cd $(WORKSPACE)", "./sim -i in.dat | tee log"]
 NAMES = ["step", "run-sim", "post_process", "lulesh 1", "a", "step.SIZE.10", "Build Code", "x_y-z.0"]
+# white space other than the blank in a step name: the Slurm job name neutralises every character
+# the unicode \s matches, LSF and Flux only the blank (each judged by what the real adapter writes)
+WS_NAMES = ["tab\there", "vt\x0bff\x0cend", "nb\u00a0sp", "em\u2003space x", "nel\u0085name", " lead\ttrail\u00a0",
+            "fs\x1cgs\x1d", "thin\u2009ls\u2028", "zwsp\u200bkept"]
 DESCS = ["d", "Run the simulation", "two\nlines", "say \"hi\"", "tabs\tand more", ""]
 
 
@@ -630,7 +634,9 @@ def gen_case(rng, stream):
     if exotic and rng.random() < 0.1:
         b["nodes"] = rng.choice(["", 0, "x", None])
     name = rng.choice(NAMES)
-    if exotic and rng.random() < 0.2:
+    if rng.random() < (0.1 if exotic else 0.06):
+        name = rng.choice(WS_NAMES)
+    elif exotic and rng.random() < 0.2:
         name = rng.choice(["näme", "a b c", "with\"quote", "semi;colon", "-dash", "sp  ace"])
     c = {"backend": be, "batch": b, "name": name, "desc": rng.choice(DESCS), "cmd": cmd, "restart": restart,
          "res": res, "cmd_pieces": cp, "restart_pieces": rp, "stream": stream}
@@ -875,6 +881,15 @@ def small_scope(tier):
                                       "restart": "".join(piece_text(p) for p in restart_ps), "res": res,
                                       "cmd_pieces": [list(p) for p in ps], "restart_pieces": [list(p) for p in restart_ps],
                                       "stream": "small"})
+    # every back-end x every kind of white space in the step name
+    for be in ("slurm", "lsf", "flux", "local"):
+        for name in WS_NAMES:
+            b = {"type": be} if be == "local" else {"type": be, "host": "h", "bank": "b", "queue": "q"}
+            ps = [["B"], ["T", " ./sim"]] if be != "local" else [["T", "echo hi"]]
+            res = [] if be == "local" else [["nodes", 1], ["procs", 4]]
+            cases.append({"backend": be, "batch": b, "name": name, "desc": "d",
+                          "cmd": "".join(piece_text(p) for p in ps), "restart": "", "res": res,
+                          "cmd_pieces": [list(p) for p in ps], "restart_pieces": [], "stream": "small"})
     return cases
 
 
@@ -1186,7 +1201,8 @@ def run(ck):
         ck.cov["traces_validated_against_impl"] = len(cases)
         ck.cov["rule"] = (
             "corpus (%d) + exhaustive small scope (back-end x nodes/procs absent|int|str x 14 token layouts x "
-            "walltime shapes) + seeded structured cases (any subset of the schema's resource keys, ints or decimal "
+            "walltime shapes; back-end x step names with tab / VT / FF / FS / NBSP / NEL / U+2003 / U+2009 / U+2028 / "
+            "U+200B) + seeded structured cases (any subset of the schema's resource keys, ints or decimal "
             "strings, every documented token form, 0-2 tokens per line, 1-3 lines, restart in 1/3) + seeded exotic "
             "cases (malformed tokens, odd values, unsafe characters, missing batch keys). Every case: real "
             "write_script vs model (script text, name, restart, to_be_scheduled, exception class) and C15_ok on the "
